@@ -127,16 +127,31 @@ class C05:
             raise AnalysisError("no ResolveFile construction found")
         # V9
         rep.rule("C05.V9", "in resolve_conflict the losing handle (fh is not rfh) is overwritten by upload when keep is false and renamed away when keep is true", expect_min=2)
-        ups = [n for n in ctx.own_nodes(rc) if isinstance(n, ast.Call) and pat.match("self.providers[$L.side].upload($L.oid, $$$)", n) is not None]
+        from sa.util import with_private_helpers
+        rcs = with_private_helpers(ctx, rc)
+        ups_f = [(ff, n) for ff in rcs for n in ctx.own_nodes(ff) if isinstance(n, ast.Call) and pat.match("self.providers[$L.side].upload($L.oid, $$$)", n) is not None]
+        ups = [n for _, n in ups_f]
+        fin = {id(n): ff for ff, n in ups_f}
         rns = ctx.calls(rc, "_resolve_rename")
         keep = local_assigned_from(ctx, rc, "self.__safe_call_resolver($$$)", 1) or "?"
         fh = local_assigned_from(ctx, rc, "self.__safe_call_resolver($$$)", 0) or "?"
-        ok = bool(ups) and all(fact_in(ctx.facts_at(rc, u), keep, False) and has_fact(ctx.facts_at(rc, u), "%s is $R" % fh, False) for u in ups)
-        rep.check("C05.V9", "resolve_conflict|upload", rc, ok, "upload over the loser under not keep", "the loser is overwritten under the wrong condition (facts %s)" % [sorted(ctx.facts_at(rc, u)) for u in ups])
+        ok = bool(ups) and all(fact_in(ctx.facts_inlined(fin[id(u)], u), keep, False) and has_fact(ctx.facts_inlined(fin[id(u)], u), "%s is $R" % fh, False) for u in ups)
+        rep.check("C05.V9", "resolve_conflict|upload", rc, ok, "upload over the loser under not keep", "the loser is overwritten under the wrong condition (facts %s)" % [sorted(ctx.facts_inlined(fin[id(u)], u)) for u in ups])
         ok = bool(rns) and all(fact_in(ctx.facts_at(rc, r), keep, True) and has_fact(ctx.facts_at(rc, r), "%s is $R" % fh, False) for r in rns)
         rep.check("C05.V9", "resolve_conflict|rename", rc, ok, "rename the loser under keep", "the loser is renamed under the wrong condition (facts %s)" % [sorted(ctx.facts_at(rc, r)) for r in rns])
         # the uploaded bytes are the winner's
-        ok = bool(ups) and all(any(isinstance(x, ast.Name) and x.id == fh for a in u.args[1:] for x in ast.walk(a)) for u in ups)
+        def winner_arg(u):
+            ff = fin[id(u)]
+            names = {x.id for a in u.args[1:] for x in ast.walk(a) if isinstance(x, ast.Name)}
+            if ff is rc:
+                return fh in names
+            # in an extracted helper: the parameter that receives the winner handle at the (single) call site
+            h = ctx.helper_of(ff)
+            if h is None:
+                return False
+            ps = ff.params()[1:]
+            return any(isinstance(a, ast.Name) and a.id == fh and i < len(ps) and ps[i] in names for i, a in enumerate(h[1].args))
+        ok = bool(ups) and all(winner_arg(u) for u in ups)
         rep.check("C05.V9", "resolve_conflict|winner-bytes", rc, ok, "the winner handle is what gets uploaded", "the upload over the loser does not send the winning handle", nontrivial=False)
 
 
@@ -174,12 +189,30 @@ class C05:
         rep.rule("C05.V11", "the resolver's handle is rewound before EVERY upload/create that sends it: on every path from the function entry, and from any earlier "
                  "upload/create of the same handle (including the same call on the next loop iteration), `<handle>.seek(0)` precedes the call", expect_min=3)
         n = 0
-        for qn, hname in (("SyncManager.resolve_conflict", None), ("SyncManager.__resolver_merge_upload", None)):
-            f = ctx.prog.func(qn)
-            if hname is None:
-                hname = local_assigned_from(ctx, f, "self.__safe_call_resolver($$$)", 0) if qn.endswith("resolve_conflict") else f.params()[2]
-            if not hname:
+        from sa.util import with_private_helpers
+        work = []
+        for qn in ("SyncManager.resolve_conflict", "SyncManager.__resolver_merge_upload"):
+            f0 = ctx.prog.func(qn)
+            h0 = local_assigned_from(ctx, f0, "self.__safe_call_resolver($$$)", 0) if qn.endswith("resolve_conflict") else f0.params()[2]
+            if not h0:
                 raise AnalysisError("%s: resolver handle not identified" % qn)
+            found = 0
+            for ff in with_private_helpers(ctx, f0):
+                hn = h0
+                if ff is not f0:
+                    # the helper's parameter that receives the handle at its single call site
+                    hp = ctx.helper_of(ff)
+                    hn = None
+                    if hp is not None:
+                        ps = ff.params()[1:]
+                        for i, a in enumerate(hp[1].args):
+                            if isinstance(a, ast.Name) and a.id == h0 and i < len(ps):
+                                hn = ps[i]
+                    if hn is None:
+                        continue
+                work.append((qn, ff, hn, ff is f0))
+        seen_consumer = set()
+        for qn, f, hname, is_top in work:
             g = ctx.cfg(f)
             def consumer(nd):
                 r = cfg_root(nd)
@@ -191,8 +224,10 @@ class C05:
                         return True
                 return False
             cons = [nd for nd in g.nodes if nd.kind in ("stmt", "test") and consumer(nd)]
+            if cons:
+                seen_consumer.add(qn)
             if not cons:
-                raise AnalysisError("%s: no upload/create of the resolver handle found" % qn)
+                continue
             seek = lambda nd, h=hname: node_has_call(nd, "%s.seek(0)" % h)   # noqa: E731
             for c_ in cons:
                 n += 1
@@ -200,6 +235,58 @@ class C05:
                 rep.check("C05.V11", stmt_key(f, c_.ast), ctx.line(f, c_.ast), pth is None, "seek(0) before the upload on every path",
                           "the handle can reach this upload/create without being rewound (after the resolver or an earlier upload read it): the peer receives truncated / empty content",
                           witness=describe_path(pth) if pth else None)
+        for qn in ("SyncManager.resolve_conflict", "SyncManager.__resolver_merge_upload"):
+            if qn not in seen_consumer:
+                raise AnalysisError("%s: no upload/create of the resolver handle found" % qn)
+
+    def v14(self):
+        rep, ctx = self.rep, self.ctx
+        rep.rule("C05.V14", "whatever the resolver returns, __safe_call_resolver hands back a checked answer: every (feasible) path from the resolver call to a return of "
+                 "its answer passes the three shape checks (tuple, length 2, file-like first element) or the remote-wins default - falsy garbage ((), 0, False, '') included", 1)
+        from sa.pathsens import find_path
+        sc = ctx.prog.func("SyncManager.__safe_call_resolver")
+        g = ctx.cfg(sc)
+        ret = local_assigned_from(ctx, sc, "self._resolve_conflict($$$)")
+        if ret is None:
+            raise AnalysisError("__safe_call_resolver: the resolver's answer is not bound to a single local")
+        call = [n for n in g.nodes if node_has_call(n, "self._resolve_conflict($$$)")]
+        rets = [n for n in g.nodes if n.kind == "stmt" and isinstance(n.ast, ast.Return) and isinstance(n.ast.value, ast.Name) and n.ast.value.id == ret]
+        if not call or not rets:
+            raise AnalysisError("__safe_call_resolver: resolver call / `return <answer>` not found")
+        # the last shape check: its 'passed' edge is the only way an unchanged answer may leave the validation
+        checks = [n for n in g.nodes if n.kind == "test" and any(isinstance(x, ast.Name) and x.id == ret for x in ast.walk(n.ast)) and
+                  ("isinstance(" in ast.unparse(n.ast) or "len(" in ast.unparse(n.ast) or "is_file_like(" in ast.unparse(n.ast) or "hasattr(" in ast.unparse(n.ast))]
+        default = [n for n in g.nodes if cfg_root(n) is not None and isinstance(cfg_root(n), ast.Assign) and isinstance(cfg_root(n).targets[0], ast.Name)
+                   and cfg_root(n).targets[0].id == ret and isinstance(cfg_root(n).value, ast.Tuple)]
+        if len(checks) < 3 or not default:
+            raise AnalysisError("__safe_call_resolver: shape checks (%d) / default assignment (%d) not found" % (len(checks), len(default)))
+        pth = find_path(g, [c.id for c in call], lambda n: n in rets, avoid=lambda n: n in checks or n in default, follow=NORMAL)
+        rep.check("C05.V14", "__safe_call_resolver|checked-answer", ctx.line(sc, rets[0].ast), pth is None, "every returned answer passed the shape checks or is the default",
+                  "an answer of the resolver can be returned unchecked: a falsy non-None value ((), 0, False, '') skips the shape checks and is not replaced by the default - "
+                  "resolve_conflict cannot unpack it, the step fails, is punted and retried for ever (the conflict is never resolved)", witness=describe_path(pth) if pth else None)
+
+    def v12(self):
+        rep, ctx = self.rep, self.ctx
+        rep.rule("C05.V12", "asking a ResolveFile for its length does not move the read position: after the seek to the end the saved position is restored on every path "
+                 "(the resolver / the upload that reads the handle afterwards still gets the whole content)", expect_min=1)
+        R = ctx.prog.cls("ResolveFile")
+        n = 0
+        for f in R.methods.values():
+            g = ctx.cfg(f)
+            ends = [x for x in g.nodes if node_has_call(x, "$F.seek(0, os.SEEK_END)") or node_has_call(x, "$F.seek(0, 2)")]
+            if not ends:
+                continue
+            n += 1
+            saved = [a.targets[0].id for a in ctx.own_nodes(f) if isinstance(a, ast.Assign) and isinstance(a.targets[0], ast.Name) and pat.match("$F.tell()", a.value) is not None]
+            back = lambda x: any(node_has_call(x, "$F.seek(%s)" % s_) for s_ in saved)   # noqa: E731
+            pth = g.reach([x.id for x in ends], lambda x: x is g.exit, avoid=back, follow=NORMAL)
+            # the position must have been saved BEFORE the seek to the end
+            pre = g.reach([g.entry.id], lambda x: x in ends, avoid=lambda x: cfg_root(x) is not None and isinstance(cfg_root(x), ast.Assign) and pat.match("$F.tell()", cfg_root(x).value) is not None, follow=NORMAL)
+            rep.check("C05.V12", "%s|position-restored" % short(f.qname), f, bool(saved) and pth is None and pre is None, "tell() saved before, seek(saved) after",
+                      "%s leaves the handle at the end of the file: whoever reads it next (the resolver, the upload of the winner) sees no bytes" % short(f.qname),
+                      witness=describe_path(pth or pre) if (pth or pre) else None)
+        if n == 0:
+            raise AnalysisError("ResolveFile: no length computation by seek-to-end found")
 
 
 def run(ctx: Ctx, rep: Report, tier: str):
@@ -207,7 +294,13 @@ def run(ctx: Ctx, rep: Report, tier: str):
     c.run()
     c.v10()
     c.v11()
+    c.v12()
+    c.v14()
     from rules.common import hash_conflict_definition
     rep.rule("C05.V7", "the resolver is consulted when - and only when - both sides carry different unsynchronised content: hash_conflict() = both sides have "
              "hash and path and both hashes differ from their last-synced value", expect_min=1)
     hash_conflict_definition(ctx, rep, "C05.V7")
+    from rules.common import alias as _alias
+    from rules.C07 import C07 as _C07
+    _alias(rep, ["C07.R4"], "C05.V13", "a file that is already in the way of a create is adopted silently only when its content is identical (same provider's hash of the bytes "
+           "being uploaded, C07.R4); different content is left to the conflict path, so the resolver is consulted", 3, lambda: _C07(ctx, rep).r4())
